@@ -54,7 +54,22 @@ pub fn guarded<T>(f: impl FnOnce() -> T) -> std::result::Result<T, String> {
 pub fn panic_class(p: &str) -> String {
     let (loc, msg) = p.split_once(' ').unwrap_or((p, ""));
     let file = loc.rsplit_once(':').map(|x| x.0).unwrap_or(loc);
-    let m: String = msg.chars().take(48).collect();
+    // numbers in the message (indices, lengths) vary with the input: normalise them so that the
+    // signature survives minimisation
+    let mut m = String::new();
+    let mut last_digit = false;
+    for c in msg.chars() {
+        if c.is_ascii_digit() {
+            if !last_digit {
+                m.push('N');
+            }
+            last_digit = true;
+        } else {
+            m.push(c);
+            last_digit = false;
+        }
+    }
+    let m: String = m.chars().take(48).collect();
     format!("{}:{}", file, m.replace(' ', "_"))
 }
 
